@@ -260,13 +260,15 @@ pub fn run(ctx: &mut Ctx, replay: Option<&[String]>) {
     ctx.extra.insert("patterns_exhaustive_up_to_length".into(), format!("{} x block sizes 0..=5", maxp));
     // (d) random patterns/lengths incl. indivisible lengths, other element types
     for _ in 0..ctx.scale(800, 150000) {
-        let plen = rng.range(1, 12);
+        // one case in eight: a long pattern (21 ... 100 blocks: beyond the sizes at which sorting / searching helpers change their algorithm)
+        let long = rng.chance(1, 8);
+        let plen = if long { rng.range(21, 100) } else { rng.range(1, 12) };
         let mut p: Vec<bool> = (0..plen).map(|_| rng.chance(2, 3)).collect();
         if !p.iter().any(|&b| b) {
             p[0] = true;
         }
         let trues = p.iter().filter(|&&b| b).count();
-        let b = rng.range(0, 30);
+        let b = if long { rng.range(0, 4) } else { rng.range(0, 30) };
         let indiv = rng.chance(1, 4);
         let ty = *rng.pick(&[Ty::I64, Ty::F64, Ty::Gf2]);
         if rng.chance(1, 2) {
